@@ -342,7 +342,7 @@ def collect(repo):
     import html.entities as _he
     import hashlib as _hl
     # ---- stage 6: the reference callbacks of the loose back end and its decode_entities are modelled by hand (crefText, erefText, looseDecode): source fingerprints
-    FP6 = {"handle_charref": "9a372301d45c6b15c488c008832be669", "handle_entityref": "140f5cbfc08259ff00177d41636209c2", "handle_data": "ced837949e4dca376d57cceb219cc20b"}
+    FP6 = {"handle_charref": "6aff45054ac539d38c506a96975c3cae", "handle_entityref": "140f5cbfc08259ff00177d41636209c2", "handle_data": "ced837949e4dca376d57cceb219cc20b"}
     def _h(fn):
         return _hl.sha256(body_of(fn).encode()).hexdigest()[:32]
     stage6_changed = [n for n, h in FP6.items() if not hasattr(M, n) or _h(getattr(M, n)) != h]
